@@ -152,6 +152,9 @@ def run_design(ctx):
 
 # ------------------------------------------------------------------------------- spec -> code
 
+# (behaviours per simulation worker, simulation workers, random scenarios)
+SIZES = {"quick": (120, 1, 1500), "thorough": (600, 2, 40000)}
+
 SIM_SCEN = [
     dict(threads=2, libs="AB", self_="A", failc="B"),
     dict(threads=3, libs="AB", self_="A", failc="B"),
@@ -164,16 +167,104 @@ SIM_SCEN = [
 ]
 
 
-def simulate(ctx, sc, num, seed):
+def simulate(ctx, sc, num, seed, workers):
     text = cfg(sc["threads"], sc["libs"], sc.get("maxcalls", 1), sc.get("self_", ""), sc.get("cross", ""),
                sc.get("failc", ""), sc.get("failm", ""), sc.get("pre", False), spec="SimSpec",
                invs=["PrintFinal"], props=(), deadlock=False)
-    r = core.tlc("Embedding_Sim", cfg_text=text, workers=2, simulate="num=%d" % num, depth=600, seed=seed, timeout=600)
+    r = core.tlc("Embedding_Sim", cfg_text=text, workers=workers, simulate="num=%d" % num, depth=600, seed=seed, timeout=600)
     behs = []
     for tup in core.tla_tuples(r.out, "BEH"):
         s = tup[0].strip()
         behs.append(json.loads(json.loads(s)))     # TLC prints the JSON text as a TLA+ string
     return r, behs
+
+
+_VARLINE = re.compile(r"^/\\ (\w+) = (.*)$")
+_PROJ_VARS = ("spin", "pyinit", "gil", "mark", "mlock", "ready", "mrec", "mowner", "mdepth", "called", "org", "fast", "L")
+
+
+def _node_vars(text, cache={}):
+    from harness import tlaval
+    out = {}
+    for ln in text.split("\n"):
+        m = _VARLINE.match(ln)
+        if m and m.group(1) in _PROJ_VARS:
+            out[m.group(1)] = tlaval.parse_value(m.group(2))
+    return out
+
+
+def graph_behaviours(ctx, sc, max_walks):
+    """Complete state graph of a small configuration (TLC -dump); walks from the initial state
+    that greedily cover every transition (spin self-loops included).  Returns (TLC result,
+    behaviours in the format of simulate(), number of transitions, number covered)."""
+    from collections import deque
+    from harness import tlaval
+    dump = os.path.join(ctx.tmp, "graph_%dthr_%s" % (sc["threads"], sc["libs"]))
+    text = cfg(sc["threads"], sc["libs"], sc.get("maxcalls", 1), sc.get("self_", ""), sc.get("cross", ""),
+               sc.get("failc", ""), sc.get("failm", ""), sc.get("pre", False), invs=[], props=(), deadlock=False)
+    r = core.tlc("Embedding", cfg_text=text, workers=2, dump=dump, timeout=600)
+    g = tlaval.load_dot(dump + ".dot", parse=False)
+    out = {n: [e for e in g.out.get(n, []) if e[0] != "Terminating"] for n in g.states}
+    uncovered = {(n, i) for n, es in out.items() for i in range(len(es))}
+    total = len(uncovered)
+    libs = sc["libs"]
+    vars_of = {}
+
+    def nv(n):
+        if n not in vars_of:
+            vars_of[n] = _node_vars(g.states[n])
+        return vars_of[n]
+
+    def proj(n):
+        v = nv(n)
+        return [v["spin"], v["pyinit"], v["gil"],
+                [[v[k][l] for k in ("mark", "mlock", "ready", "mrec", "mowner", "mdepth", "called", "org", "fast")]
+                 for l in libs]]
+
+    def path_to_uncovered(src):
+        """shortest edge path from src to a node that has an uncovered out-edge"""
+        prev, dq = {src: None}, deque([src])
+        while dq:
+            n = dq.popleft()
+            if any((n, i) in uncovered for i in range(len(out[n]))):
+                path = []
+                while prev[n] is not None:
+                    p, i = prev[n]
+                    path.append((p, i))
+                    n = p
+                return path[::-1]
+            for i, e in enumerate(out[n]):
+                if e[2] not in prev:
+                    prev[e[2]] = (n, i)
+                    dq.append(e[2])
+        return None
+    behs = []
+    rng = ctx.rng
+    while uncovered and len(behs) < max_walks:
+        cur, beh, spins = g.init[0], [], 0
+        while len(beh) < 600:
+            es = out[cur]
+            if not es:
+                break
+            unc = [i for i in range(len(es)) if (cur, i) in uncovered]
+            if unc:
+                i = rng.choice(unc)
+            else:
+                pth = path_to_uncovered(cur)
+                if pth:
+                    i = pth[0][1]
+                else:
+                    fw = [k for k in range(len(es)) if es[k][2] != cur]      # finish the walk
+                    if not fw:
+                        break
+                    i = rng.choice(fw)
+            uncovered.discard((cur, i))
+            name, args, dst = es[i]
+            t = args[0]
+            beh.append([t, name, nv(dst)["L"][t - 1], proj(dst)])
+            cur = dst
+        behs.append(beh)
+    return r, behs, total, total - len(uncovered)
 
 
 def beh_to_scenario(sc, beh):
@@ -329,9 +420,10 @@ def run(ctx):
     ctx.cov["harness_build_s"] = round(time.time() - t0, 2)
 
     # ---------------------------------------------------------------- design level (TLC) and behaviours
-    nsim = 100 if quick else 1200
+    nsim, simworkers, nrand = SIZES[ctx.tier]
     simseed = ctx.rng.randrange(1, 2 ** 31)
     scens = SIM_SCEN[:4] if quick else SIM_SCEN
+    gsc = dict(threads=2, libs="A", self_="A")
     e2e_plan = None
     if not quick:
         from harness.embed import e2e
@@ -339,14 +431,24 @@ def run(ctx):
     with ThreadPoolExecutor(3) as ex:
         fe = ex.submit(e2e.run, ctx, e2e_plan) if e2e_plan else None
         fd = ex.submit(run_design, ctx)
-        fs = ex.submit(lambda: par([("sim%d" % i, (lambda sc=sc, i=i: simulate(ctx, sc, nsim, simseed + i)))
+        fs = ex.submit(lambda: par([("sim%d" % i, (lambda sc=sc, i=i: simulate(ctx, sc, nsim, simseed + i, simworkers)))
                                     for i, sc in enumerate(scens)], 4 if quick else 3))
+        # meanwhile, in this thread (it owns ctx.rng): the complete graph of a small configuration
+        gr, gbehs, gtotal, gcovered = graph_behaviours(ctx, gsc, 60 if quick else 100000)
         fd.result()
         sims = fs.result()
         e2e_out = fe.result() if fe else None
+    ctx.add_tlc("dump(%s)" % scen_name(gsc), gr, count_states=False)
+    ctx.cov["graph_transitions"] = {"config": scen_name(gsc), "total": gtotal, "replayed_on_the_code": gcovered}
+    if not quick and gcovered != gtotal:
+        raise core.MachineryError("graph walks did not cover every transition (%d of %d)" % (gcovered, gtotal))
 
     # ---------------------------------------------------------------- spec -> code
     rscen, rbeh, rsc = [], [], []
+    for beh in gbehs:
+        rscen.append(beh_to_scenario(gsc, beh))
+        rbeh.append(beh)
+        rsc.append(gsc)
     for i, sc in enumerate(scens):
         r, behs = sims["sim%d" % i]
         ctx.add_tlc("simulate(%s)" % scen_name(sc), r, count_states=False)
@@ -370,7 +472,6 @@ def run(ctx):
     kept1 = check_machinery(ctx, rscen, results, "tlc-replay")
 
     # ---------------------------------------------------------------- code -> spec (random schedules)
-    nrand = 1500 if quick else 40000
     fscen = [random_scenario(ctx.rng, quick) for _ in range(nrand)]
     fres = driver.run_batch(exe, symtab, fscen, nproc=8 if quick else 12)
     kept2 = check_machinery(ctx, fscen, fres, "random")
